@@ -237,8 +237,7 @@ func (c *ExpressionParser) completeLexicalAnalysis() error {
 		tokenValue := variants.Empty
 
 		switch token.Type() {
-		case tokenizers.Comment:
-		case tokenizers.Whitespace:
+		case tokenizers.Comment, tokenizers.Whitespace:
 			continue
 		case tokenizers.Keyword:
 			{
